@@ -5,6 +5,8 @@ import (
 	"flag"
 	"fmt"
 	"os"
+	"runtime"
+	"runtime/pprof"
 	"sort"
 	"time"
 
@@ -121,6 +123,7 @@ func cmdSeq(args []string) {
 	out := fs.String("out", "", "output json")
 	maxviol := fs.Int("maxviol", 25, "violation cap")
 	timeout := fs.Duration("timeout", 0, "wall-clock cap")
+	memprof := fs.String("memprofile", "", "write a heap profile at the end")
 	fs.Parse(args)
 	ck := seqChecks[*name]
 	if ck == nil {
@@ -143,6 +146,13 @@ func cmdSeq(args []string) {
 	t0 := time.Now()
 	ck.run(c)
 	c.out.WallS = time.Since(t0).Seconds()
+	if *memprof != "" {
+		f, _ := os.Create(*memprof)
+		runtime.GC()
+		pprof.WriteHeapProfile(f)
+		f.Close()
+		fmt.Fprintf(os.Stderr, "goroutines=%d\n", runtime.NumGoroutine())
+	}
 	data, _ := json.MarshalIndent(c.out, "", " ")
 	if *out != "" {
 		os.WriteFile(*out, data, 0o644)
